@@ -2,6 +2,7 @@
 mod c05;
 mod c06;
 mod c08;
+mod c09;
 mod c15;
 mod c16;
 mod c18;
@@ -21,6 +22,7 @@ fn main() {
         "C05" => c05::run(&args, &mut rep),
         "C06" => c06::run(&args, &mut rep),
         "C08" => c08::run(&args, &mut rep),
+        "C09" => c09::run(&args, &mut rep),
         "C15" => c15::run(&args, &mut rep),
         "C16" => c16::run(&args, &mut rep),
         "C18" => c18::run(&args, &mut rep),
